@@ -85,6 +85,26 @@ pub fn exports(args: &Args, reg: &[TypeEntry], log: &mut Log) {
         std::fs::write(d.join("keep/notes.txt"), b"notes\n").unwrap();
         std::fs::write(root.join("outside.txt"), b"outside\n").unwrap();
         let before = files_only(&snapshot(&root));
+        // every third root: one of its dependencies was exported alone earlier in the same process (into the same directory)
+        let mut pre_exported: Option<String> = None;
+        if k % 3 == 1 {
+            let wanted: Vec<String> = guarded(e.collect).unwrap_or_default().iter().skip(1).map(|d| d.ident.clone()).collect();
+            let cands: Vec<&TypeEntry> = reg
+                .iter()
+                .filter(|o| o.id != e.id && o.arg_names.is_empty() && !o.rust.contains('<') && guarded(o.ident).map_or(false, |i| wanted.contains(&i)))
+                .collect();
+            if !cands.is_empty() {
+                let o = cands[rng.below(cands.len())];
+                if use_env {
+                    std::env::remove_var("TS_RS_EXPORT_DIR");
+                } else {
+                    std::env::set_var("TS_RS_EXPORT_DIR", &spelling);
+                }
+                if let Ok(Ok(())) = guarded(o.export) {
+                    pre_exported = Some(o.id.clone());
+                }
+            }
+        }
         std::env::remove_var("TS_RS_EXPORT_DIR");
         let result = if use_env {
             guarded(|| (e.export_all)())
@@ -135,7 +155,7 @@ pub fn exports(args: &Args, reg: &[TypeEntry], log: &mut Log) {
         let decl_text = decl.ok();
         log.emit(json!({
             "ev": "root", "monitor": "exports", "id": e.id, "rust": e.rust, "esm": esm,
-            "dir_spelling": spelling, "dname": dname, "via_default_dir": use_env,
+            "dir_spelling": spelling, "dname": dname, "via_default_dir": use_env, "pre_exported": pre_exported,
             "result": result_json,
             "files": files, "untouched_ok": untouched_ok, "removed": removed,
             "collected": collected, "dependencies": deps, "decl_free": decl_free, "decl": decl_text,
